@@ -84,6 +84,48 @@ fn check_one(re: &Regex, names: &[Option<String>], texts: &[String], pat: &str, 
         if c.get(0).is_none() {
             bad(acc, "Captures::get(0)", t, "Some".into(), "None".into());
         }
+        // "iter() yields len() items" through every way of driving the iterator: next() by hand
+        // (and again after the end), count, last, nth, skip, size_hint
+        {
+            let sp = |m: Option<fancy_regex::Match<'_>>| m.map(|m| span_of(&m));
+            let n = c.len();
+            let mut by_hand = c.iter();
+            let mut k = 0;
+            while let Some(item) = by_hand.next() {
+                if k < n && sp(item) != gets[k] {
+                    bad(acc, "Captures::iter() driven by next()", t, format!("{:?}", gets[k]), "another item".into());
+                }
+                k += 1;
+                if k > n + 2 {
+                    break;
+                }
+            }
+            let after: Vec<bool> = (0..2).map(|_| by_hand.next().is_some()).collect();
+            let tail_last = by_hand.last().is_some();
+            if k != n || after != [false, false] || tail_last {
+                bad(acc, "Captures::iter(): next() until None, two more next(), then last()", t, format!("{} items, then None, None, None", n), format!("{} items, then {:?}, last().is_some() = {}", k, after, tail_last));
+            }
+            let count = c.iter().count();
+            let last = c.iter().last().map(sp);
+            let want_last = gets.last().cloned();
+            if count != n || last != want_last {
+                bad(acc, "Captures::iter().count() / .last()", t, format!("{} / {:?}", n, want_last), format!("{} / {:?}", count, last));
+            }
+            for j in 0..=n + 1 {
+                let nth = c.iter().nth(j).map(sp);
+                let want = gets.get(j).cloned();
+                let skl = c.iter().skip(j).last().map(sp);
+                let want_skl = if j < n { want_last.clone() } else { None };
+                let skc = c.iter().skip(j).count();
+                if nth != want || skl != want_skl || skc != n.saturating_sub(j) {
+                    bad(acc, &format!("Captures::iter().nth({j}) / .skip({j}).last() / .skip({j}).count()"), t, format!("{:?} / {:?} / {}", want, want_skl, n.saturating_sub(j)), format!("{:?} / {:?} / {}", nth, skl, skc));
+                }
+            }
+            let (lo, hi) = c.iter().size_hint();
+            if lo > n || hi.map_or(false, |h| h < n) {
+                bad(acc, "Captures::iter().size_hint()", t, format!("bounds that contain {}", n), format!("({}, {:?})", lo, hi));
+            }
+        }
         for k in c.len()..c.len() + 3 {
             if c.get(k).is_some() {
                 bad(acc, &format!("Captures::get({})", k), t, "None".into(), format!("{:?}", c.get(k)));
@@ -197,7 +239,7 @@ pub fn run(ctx: &Ctx) -> Outcome {
     });
     let mut out = Outcome::new(acc);
     out.distinct_nontrivial = out.acc.distinct;
-    out.rule = format!("{}; every pattern with >= 1 group in three spellings (unnamed; all groups named with (?<gN>..) or (?P<gN>..) and named references; for reference-free patterns three partial naming layouts: every second group, only the last group, every third group) and for each the VM twin with an empty look-ahead appended; x {} texts. The generator knows the truth (group count, name of every index). Checked: captures_len, capture_names (length, each name at its index, index 0 unnamed), and on every successful search Captures::len = captures_len, iter() yields len() items equal to get(i), name(n) = get(index of n), get(0) is Some, get(len..len+3) is None, an unknown name gives None. Non-trivial: distinct patterns with >= 2 groups of which >= 1 named that matched on both routes.", sp.describe, texts.len());
+    out.rule = format!("{}; every pattern with >= 1 group in three spellings (unnamed; all groups named with (?<gN>..) or (?P<gN>..) and named references; for reference-free patterns three partial naming layouts: every second group, only the last group, every third group) and for each the VM twin with an empty look-ahead appended; x {} texts. The generator knows the truth (group count, name of every index). Checked: captures_len, capture_names (length, each name at its index, index 0 unnamed), and on every successful search Captures::len = captures_len, iter() yields len() items equal to get(i) - driven by next() (and past the end), count, last, nth, skip(j).last(), skip(j).count(), size_hint -, name(n) = get(index of n), get(0) is Some, get(len..len+3) is None, an unknown name gives None. Non-trivial: distinct patterns with >= 2 groups of which >= 1 named that matched on both routes.", sp.describe, texts.len());
     let (w, v) = (out.acc.get("patterns-matched:wrapped"), out.acc.get("patterns-matched:vm"));
     out.extra = json!({"patterns_matched": {"wrapped": w, "vm": v}});
     out.require(w > 0 && v > 0, "both routes must be exercised");
